@@ -9,11 +9,17 @@
 //   semwait <capacity>                                 SemaphoreAcquisitionObserver (SEM_WAIT)
 //   barrier <expected>                                 BarrierObserver (BARRIER_ASYNC_LOCK)
 //   condvar <ASYNC_LOCK|SIGNAL|BROADCAST>              ConditionVariableObserver
+//   condvarwait <granted01> <timeout01>                ConditionVariableObserver (CONDVAR_WAIT, on a real acquisition)
+//   barrierwait <expected>                             BarrierObserver (BARRIER_WAIT, on a real acquisition)
 //   random <min> <max> | join <timeout01> | sleep | create <child>
 //   test <matched01> | wait <matched01> <timeout01>    ActivityTestSimcall / ActivityWaitSimcall on a comm
 //   testany <n> <maskmatched> <maskexec> | waitany <n> <maskmatched> <maskexec>    members: comms (or execs = "other")
-// stdout: `<case> => <observer> <hex of the bytes serialize() produced> | <status> | <to_string(true) of the decoded transition>`
+// stdout: `<case> => <observer> <hex of the bytes serialize() produced> | <status> | <to_string(true) of the decoded transition> | truth k=v..`
 //   status: ok | leftover (bytes unread) | hang (the checker side blocks > 2 s) | die
+//   truth: what the application did, read from the objects themselves (ids of the objects the observer was built on,
+//   flags), under the names the checker prints them with.  Dummy objects are created first and between cases so that
+//   the ids of the objects of one case are non-zero and pairwise different (all id counters start at 0: two ids of
+//   the same wire type that are mixed up cannot be seen when they are equal).
 #include <cstdio>
 #include <fcntl.h>
 #include <functional>
@@ -73,7 +79,8 @@ ROB(CvTag, ConditionVariable, ConditionVariableImpl, const)
 
 static std::vector<std::string> cases;
 
-static void emit(const std::string& line, const std::string& obs_name, const kernel::actor::SimcallObserver& obs)
+static void emit(const std::string& line, const std::string& obs_name, const kernel::actor::SimcallObserver& obs,
+                 const std::string& truth = "")
 {
   int sv[2];
   xbt_assert(socketpair(AF_UNIX, SOCK_STREAM, 0, sv) == 0);
@@ -121,7 +128,7 @@ static void emit(const std::string& line, const std::string& obs_name, const ker
     res = "die | ";
   close(sv[0]);
   close(sv[1]);
-  std::cout << line << " => " << obs_name << " " << hex << " | " << res << "\n";
+  std::cout << line << " => " << obs_name << " " << hex << " | " << res << " | truth" << truth << "\n";
 }
 
 static TT kind_of(const std::string& prefix, const std::string& k)
@@ -132,11 +139,36 @@ static TT kind_of(const std::string& prefix, const std::string& k)
   xbt_die("bad kind %s%s", prefix.c_str(), k.c_str());
 }
 
+static std::string kv(const char* k, long v)
+{
+  return std::string(" ") + k + "=" + std::to_string(v);
+}
+
 static void run_cases()
 {
   auto* issuer = kernel::actor::ActorImpl::self();
   auto* host   = sg4::this_actor::get_host();
   int mbn      = 0;
+  // dummies: different offsets for the four id counters, none of them 0
+  std::vector<sg4::MutexPtr> dummy_m{sg4::Mutex::create(), sg4::Mutex::create()};
+  std::vector<sg4::ConditionVariablePtr> dummy_c;
+  std::vector<sg4::SemaphorePtr> dummy_s;
+  std::vector<sg4::BarrierPtr> dummy_b;
+  for (int i = 0; i < 5; i++)
+    dummy_c.push_back(sg4::ConditionVariable::create());
+  for (int i = 0; i < 3; i++)
+    dummy_s.push_back(sg4::Semaphore::create(1));
+  for (int i = 0; i < 7; i++)
+    dummy_b.push_back(sg4::Barrier::create(2));
+  // a mutex whose id differs from the id of `cv`
+  auto mutex_unlike = [&dummy_m](const sg4::ConditionVariablePtr& cv) {
+    auto m = sg4::Mutex::create();
+    while (PIMPL(m, MutexTag)->get_id() == PIMPL(cv, CvTag)->get_id()) {
+      dummy_m.push_back(m);
+      m = sg4::Mutex::create();
+    }
+    return m;
+  };
   for (auto const& line : cases) {
     std::istringstream in(line);
     std::string cmd;
@@ -152,13 +184,13 @@ static void run_cases()
         m->lock();
       if (cmd == "mutex") {
         kernel::actor::MutexObserver obs{issuer, kind_of("MUTEX_", k), PIMPL(m, MutexTag)};
-        emit(line, "MutexObserver", obs);
+        emit(line, "MutexObserver", obs, kv("mutex", PIMPL(m, MutexTag)->get_id()));
         if (held)
           m->unlock();
       } else {
         auto acq = kernel::actor::simcall_answered([&] { return PIMPL(m, MutexTag)->lock_async(issuer); });
         kernel::actor::MutexAcquisitionObserver obs{issuer, TT::MUTEX_WAIT, acq.get(), -1};
-        emit(line, "MutexAcquisitionObserver", obs);
+        emit(line, "MutexAcquisitionObserver", obs, kv("mutex", PIMPL(m, MutexTag)->get_id()));
         m->unlock(); // the acquisition on a free mutex was granted at once
       }
     } else if (cmd == "sem") {
@@ -167,33 +199,61 @@ static void run_cases()
       in >> k >> cap;
       auto s = sg4::Semaphore::create(cap);
       kernel::actor::SemaphoreObserver obs{issuer, kind_of("SEM_", k), PIMPL(s, SemTag)};
-      emit(line, "SemaphoreObserver", obs);
+      emit(line, "SemaphoreObserver", obs, kv("semaphore", PIMPL(s, SemTag)->get_id()));
     } else if (cmd == "semwait") {
       unsigned cap;
       in >> cap;
       auto s   = sg4::Semaphore::create(cap);
       auto acq = kernel::actor::simcall_answered([&] { return PIMPL(s, SemTag)->acquire_async(issuer); });
       kernel::actor::SemaphoreAcquisitionObserver obs{issuer, TT::SEM_WAIT, acq.get(), -1};
-      emit(line, "SemaphoreAcquisitionObserver", obs);
+      emit(line, "SemaphoreAcquisitionObserver", obs, kv("semaphore", PIMPL(s, SemTag)->get_id()));
       s->release(); // gives the capacity back (or grants the pending acquisition): the semaphore can be destroyed
     } else if (cmd == "barrier") {
       unsigned n;
       in >> n;
       auto b = sg4::Barrier::create(n);
       kernel::actor::BarrierObserver obs{issuer, TT::BARRIER_ASYNC_LOCK, PIMPL(b, BarTag)};
-      emit(line, "BarrierObserver", obs);
+      emit(line, "BarrierObserver", obs, kv("barrier", PIMPL(b, BarTag)->get_id()));
+    } else if (cmd == "barrierwait") {
+      unsigned n;
+      in >> n;
+      auto b   = sg4::Barrier::create(n);
+      auto acq = kernel::actor::simcall_answered([&] { return PIMPL(b, BarTag)->acquire_async(issuer); });
+      kernel::actor::BarrierObserver obs{issuer, TT::BARRIER_WAIT, acq.get(), -1};
+      emit(line, "BarrierObserver", obs, kv("barrier", PIMPL(b, BarTag)->get_id()));
     } else if (cmd == "condvar") {
       std::string k;
       in >> k;
       auto cv = sg4::ConditionVariable::create();
-      auto m  = sg4::Mutex::create();
+      auto m  = mutex_unlike(cv);
       if (k == "ASYNC_LOCK") {
         kernel::actor::ConditionVariableObserver obs{issuer, TT::CONDVAR_ASYNC_LOCK, PIMPL(cv, CvTag), PIMPL(m, MutexTag)};
-        emit(line, "ConditionVariableObserver", obs);
+        emit(line, "ConditionVariableObserver", obs,
+             kv("cond", PIMPL(cv, CvTag)->get_id()) + kv("mutex", PIMPL(m, MutexTag)->get_id()));
       } else {
         kernel::actor::ConditionVariableObserver obs{issuer, kind_of("CONDVAR_", k), PIMPL(cv, CvTag)};
-        emit(line, "ConditionVariableObserver", obs);
+        emit(line, "ConditionVariableObserver", obs, kv("cond", PIMPL(cv, CvTag)->get_id()));
       }
+    } else if (cmd == "condvarwait") {
+      int granted, to;
+      in >> granted >> to;
+      auto cv = sg4::ConditionVariable::create();
+      auto m  = mutex_unlike(cv);
+      m->lock();
+      // what ConditionVariable::wait_for does under the checker: CONDVAR_ASYNC_LOCK registers the acquisition (and
+      // releases the mutex), the CONDVAR_WAIT observer is built on that acquisition
+      auto acq = kernel::actor::simcall_answered(
+          [&] { return PIMPL(cv, CvTag)->acquire_async(issuer, PIMPL(m, MutexTag)); });
+      if (granted)
+        cv->notify_one();
+      {
+        kernel::actor::ConditionVariableObserver obs{issuer, TT::CONDVAR_WAIT, acq.get(), to ? 5.0 : -1.0};
+        emit(line, "ConditionVariableObserver", obs,
+             kv("cond", PIMPL(cv, CvTag)->get_id()) + kv("mutex", PIMPL(m, MutexTag)->get_id()) + kv("granted", granted) +
+                 kv("timeout", to));
+      }
+      if (not granted)
+        cv->notify_one(); // takes the acquisition out of the queue: the condvar can be destroyed
     } else if (cmd == "random") {
       int a, b;
       in >> a >> b;
